@@ -1,6 +1,8 @@
 import QR.Proofs.C02Tables
 import QR.Proofs.Interleave
 import QR.Proofs.RSDiv
+import QR.Proofs.Distance
+import QR.Proofs.Pinned
 /-
 C02 - every error-correction block is a codeword of the ISO Reed-Solomon code; block structure = ISO Table 9.
 -/
@@ -82,5 +84,25 @@ theorem C02_blocks (v : Nat) (hv : v < 40) (l : Spec.Level) (buf : List Nat)
   injection h1 with h1
   subst h1
   exact hcw
+
+/-- **C02 (minimum distance)**: a non-zero codeword of length ≤ 255 of the code with e check symbols has at least e + 1
+    non-zero symbols (BCH bound, by elimination on the syndromes as power sums; GF(256) with xor/gfmul is a field) -/
+theorem C02_distance (e : Nat) (cw : List Nat) (hlen : cw.length ≤ 255) (hb : ∀ c ∈ cw, c < 256)
+    (hcw : Spec.isCodeword e cw = true) (hnz : ∃ c ∈ cw, c ≠ 0) : e + 1 ≤ (cw.filter (· ≠ 0)).length :=
+  QR.Proofs.codeword_weight e cw hlen hb hcw hnz
+
+/-- **C02 (correctability)**: for every block shape of ISO Table 9 (all 160 pairs; every block has at most 153 codewords), a
+    received word within ⌊e/2⌋ damaged codewords of a codeword determines that codeword uniquely - so any ≤ ⌊e/2⌋ damaged
+    codewords per block are correctable -/
+theorem C02_unique_decoding (v : Nat) (hv : v < 40) (l : Spec.Level) (b : Nat × Nat) (hbl : b ∈ Spec.isoBlocks (v + 1) l)
+    (r c1 c2 : List Nat) (hr : r.length = b.1) (hc1 : c1.length = b.1) (hc2 : c2.length = b.1)
+    (hb1 : ∀ c ∈ c1, c < 256) (hb2 : ∀ c ∈ c2, c < 256)
+    (h1 : Spec.isCodeword (Spec.eccLen (v + 1) l) c1 = true) (h2 : Spec.isCodeword (Spec.eccLen (v + 1) l) c2 = true)
+    (hd1 : QR.Proofs.hdist r c1 ≤ Spec.eccLen (v + 1) l / 2) (hd2 : QR.Proofs.hdist r c2 ≤ Spec.eccLen (v + 1) l / 2) : c1 = c2 :=
+  QR.Proofs.C02_unique_decoding v hv l b hbl r c1 c2 hr hc1 hc2 hb1 hb2 h1 h2 hd1 hd2
+
+/-- the Python functions this property's model mirrors have, in /repo's current working tree, exactly the normalised
+    ASTs the model was written and validated against (fingerprints regenerated by T1 on every run) -/
+theorem C02_source_fingerprints : QR.Gen.fp_C02 = QR.Pinned.fp_C02 := by decide
 
 end QR.Props
